@@ -226,8 +226,10 @@ def eval_strings(prop: str, header: str, exprs: list[str], name: str = "show.v",
 
 # --------------------------------------------------------------------------- proof step
 
-FORBIDDEN = re.compile(r"\b(Admitted|admit|Axiom|Axioms|Parameter|Parameters|Conjecture|Hypothesis|Variable|"
-                       r"Unset Guard|bypass_check|type-in-type|impredicative-set|Admit Obligations)\b")
+FORBIDDEN = re.compile(r"\b(Admitted|admit|Axiom|Axioms|Parameter|Parameters|Conjecture|Conjectures|Hypothesis|Hypotheses|Variable|Variables|"
+                       r"Context|Unset Guard|Guard Checking|Positivity Checking|Universe Checking|bypass_check|type-in-type|"
+                       r"impredicative-set|Admit Obligations)\b")
+SECTION_ONLY = ("Variable", "Variables", "Hypothesis", "Hypotheses", "Context")
 
 
 def strip_coq_comments(s: str) -> str:
@@ -281,9 +283,9 @@ def audit_sources(rel: str | None = None) -> list[str]:
                 depth -= 1
             for m in FORBIDDEN.finditer(line):
                 w = m.group(1)
-                if w in ("Variable", "Hypothesis") and depth > 0:
+                if w in SECTION_ONLY and depth > 0:
                     continue
-                if w in ("Variable", "Hypothesis") and not re.match(r"\s*(Variable|Hypothesis)\b", line):
+                if w in SECTION_ONLY and not re.match(r"\s*(Variables?|Hypothes[ie]s|Context)\b", line):
                     continue
                 problems.append(f"{p.relative_to(COQ)}:{ln}: {w}")
     return problems
